@@ -455,6 +455,7 @@ func c19WholeFieldSubQueries(o *Out) {
 
 func runC19(o *Out) {
 	c19WholeFieldSubQueries(o)
+	c19Embedded(o)
 	defer c19CheckKept(o)
 	r := o.rng
 	ntypes := 500
